@@ -22,7 +22,8 @@ def Rejecting (r : Res) (now : Nat) (a : String) : Prop :=
 def numRejecting (r : Res) (now : Nat) : Nat :=
   (r.nodes.filter fun p => !(p.2.tryPass r.rule.cb now).2).length
 
-private theorem filters_eq (r : Res) (now : Nat) (ord : Nodes) :
+/-- closed form of the loop: the filter list is the first `cap` rejecting nodes **in iteration order** -/
+theorem filters_eq (r : Res) (now : Nat) (ord : Nodes) :
     (r.check now ord).2.filters =
       (rejAddrs (ord.map (viewOf r.rule.cb now))).take (r.rule.cap r.nodes.length) := by
   unfold Res.check; simp only; rw [collect_filters]
@@ -422,5 +423,44 @@ theorem cap_percent_one (n : Nat) (hn : n < 2 ^ 53) : capF64 n (2 ^ 52) 52 = n :
       have hne : (0 : Nat) ≠ 2 ^ (s - 1) := (by positivity : 0 < 2 ^ (s - 1)).ne
       simp only [hr, hq, hs, if_true, hhalf, false_or, hne, false_and, if_false]
       exact Nat.mul_div_cancel _ (by positivity)
+
+/-! ## along every history, and non-vacuity -/
+
+/-- The per-request guarantees hold in whatever state a history of events (requests, completions with any
+    per-node success/failure pattern at any times, recovery results, timers, reloads) leads to. -/
+theorem filter_sound_along_any_history (r₀ : Res) (evs : List Ev) (now : Nat) (ord : Nodes)
+    (hp : ord.Perm (evs.foldl step r₀).nodes) :
+    let r := evs.foldl step r₀
+    (∀ a ∈ (r.check now ord).2.filters, Rejecting r now a) ∧
+    (r.check now ord).2.filters.length = min (r.rule.cap r.nodes.length) (numRejecting r now) ∧
+    (r.check now ord).2.filters.length ≤ r.rule.cap r.nodes.length :=
+  ⟨filter_subset_rejecting _ now ord hp, filter_card_eq_min _ now ord hp, filter_card_le_cap _ now ord⟩
+
+/-- a small concrete resource: `a` open and timed out (will be probed), `b` open (rejecting), `c` closed -/
+def sampleRes (active : Bool) (cap : Nat) : Res :=
+  let cb : CbRule := ⟨1000, 1, 0, 1, 1000, fun _ e => e, fun b _ => decide (1 ≤ b)⟩
+  let st : LA.Arr Cnt := { n := 1, L := 1000, slots := [] }
+  { rule := { cb := cb, active := active, cap := fun _ => cap },
+    nodes := [("a", { state := .opened, nextRetry := 500, stat := st }),
+              ("b", { state := .opened, nextRetry := 5000, stat := st }),
+              ("c", { stat := st })],
+    status := [("b", false)] }
+
+/-- the hypotheses and conclusions are inhabited: passive mode reports the probed node, the cap admits the
+    rejecting one; in active mode nothing is reported half-open; with cap 0 nothing is filtered -/
+example :
+    ((sampleRes false 1).check 1000 (sampleRes false 1).nodes).2.filters = ["b"] ∧
+    ((sampleRes false 1).check 1000 (sampleRes false 1).nodes).2.halfs = ["a"] ∧
+    ((sampleRes true 1).check 1000 (sampleRes true 1).nodes).2.halfs = [] ∧
+    ((sampleRes false 0).check 1000 (sampleRes false 0).nodes).2.filters = [] := by decide
+
+/-- the recycler hypotheses are inhabited: `b` is scheduled, succeeds, its timer deletes nothing; without the
+    success the same timer deletes it -/
+example : hasKey (sampleRes false 1).status "b" = true ∧
+    ((((sampleRes false 1).completed 2000 "b" 1 false).recycle "b").nodes.map (·.1)) = ["a", "b", "c"] ∧
+    ((((sampleRes false 1).completed 2000 "b" 1 true).recycle "b").nodes.map (·.1)) = ["a", "c"] := by decide
+
+/-- the exact-product hypothesis of `filter_card_le_floor_partial` is inhabited (p = 1/2, 5 nodes: cap 2) -/
+example : 5 * 2 ^ 52 < 2 ^ 53 + 2 ^ 54 ∧ capF64 5 1 1 = 2 ∧ capExact 5 1 1 = 2 := by decide
 
 end Sentinel.C20
